@@ -443,9 +443,51 @@ def symbolic_maps(ctx):
                 ctx.fail(cid, site, 'mismatch', P, '%s with the %s vector: %s, expected %s' % (site, vn, np.asarray(r).tolist(), want))
 
 
+def vector_helpers(ctx):
+    """the helpers related to norm - unitvec, unitvec_norm, isunitvec, iszerovec - against their definitions, for vectors of length 1, 3 and 6
+    over the whole magnitude range the differential motions of this property live in (1e-9 .. 1e-2) and up to 1e6"""
+    import spatialmath.base as b
+    dirs = {1: [(1.0,), (-1.0,)], 3: [(1.0, 0, 0), (0, -1.0, 0), (1.0, -2.0, 0.5), (0.3, 0.4, -0.5)], 6: [(1.0, 2, 3, 0.3, -0.2, 0.1), (0, 0, 0, 0, 0, -1.0), (1.0, 0, 0, 0, 0, 0)]}
+    mags = [10.0 ** k for k in (-12, -9, -8, -7, -6, -3, -2, 0, 3, 6)]
+    for n, ds in dirs.items():
+        for di, d in enumerate(ds):
+            for m in mags:
+                v = np.array(d, dtype=float)
+                v = v / np.linalg.norm(v) * m
+                for fn, fm in (('array', lambda x: x.copy()), ('list', lambda x: x.tolist())):
+                    cid = 'C13/helpers/n=%d/dir=%d/mag=%g/%s' % (n, di, m, fn)
+                    if not ctx.want(cid):
+                        continue
+                    ctx.case(cid, key=cid)
+                    P = dict(law='unitvec', n=n, mag=m, form=fn)
+                    u0 = v / m
+                    ok, r = call(lambda: (b.unitvec(fm(v)), b.unitvec_norm(fm(v)), b.isunitvec(u0.copy()), b.iszerovec(fm(v)), b.norm(fm(v))))
+                    if not ok:
+                        ctx.fail(cid, 'base.unitvec', 'raises:' + type(r).__name__, P, '%r' % (r,))
+                        continue
+                    u, un, isu, isz, nn = r
+                    if u is None or np.shape(u) != (n,) or float(np.abs(np.asarray(u, dtype=float) - u0).max()) > 1e-12:
+                        ctx.fail(cid, 'base.unitvec', 'mismatch', P, 'unitvec of a vector of length %g gives %r, expected v / |v|' % (m, u))
+                    if un is None or len(un) != 2 or float(np.abs(np.asarray(un[0], dtype=float) - u0).max()) > 1e-12 or abs(float(un[1]) - m) > 1e-12 * m:
+                        ctx.fail(cid, 'base.unitvec_norm', 'mismatch', P, 'unitvec_norm of a vector of length %g gives %r' % (m, un))
+                    if not bool(isu):
+                        ctx.fail(cid, 'base.isunitvec', 'mismatch', P, 'isunitvec(v / |v|) is %r' % (isu,))
+                    if abs(float(nn) - m) > 1e-12 * m:
+                        ctx.fail(cid, 'base.norm', 'mismatch', P, 'norm gives %r for a vector of length %g' % (nn, m))
+                    if bool(isz):
+                        ctx.fail(cid, 'base.iszerovec', 'mismatch', P, 'a vector of length %g is reported as zero' % m)
+        z = np.zeros(n)
+        cid = 'C13/helpers/n=%d/zero' % n
+        if ctx.want(cid):
+            ctx.case(cid, key=cid, trivial=True)
+            ok, r = call(lambda: (b.unitvec(z.copy()), b.iszerovec(z.copy()), b.norm(z.copy())))
+            if ok and (r[0] is not None or not bool(r[1]) or float(r[2]) != 0.0):
+                ctx.fail(cid, 'base.unitvec', 'mismatch', dict(law='unitvec', n=n, mag=0.0), 'zero vector: unitvec %r, iszerovec %r, norm %r' % r)
+
+
 def shards(tier, seed):
     K = 6 if tier == 'quick' else 24
-    return [('lin',), ('delta',), ('sym',)] + [('adj', k, K) for k in range(K)] + [('expad', k, K) for k in range(K)]
+    return [('lin',), ('delta',), ('sym',), ('helpers',)] + [('adj', k, K) for k in range(K)] + [('expad', k, K) for k in range(K)]
 
 
 def run_shard(ctx, shard):
@@ -456,6 +498,8 @@ def run_shard(ctx, shard):
         delta_cases(ctx)
     elif k == 'sym':
         symbolic_maps(ctx)
+    elif k == 'helpers':
+        vector_helpers(ctx)
     elif k == 'adj':
         adjoint_cases(ctx, shard[1], shard[2])
     else:
